@@ -2,6 +2,8 @@
  * argument-copy loop without a single iteration, and "*(--tmp1) = 0" then stores the terminator one byte
  * BEFORE the freshly allocated Command buffer (heap underflow write). */
 #include <libast_internal.h>
+/* the error path also leaks Command (a C06 matter): leak detection off, this demo is about the write */
+const char *__asan_default_options(void) { return "detect_leaks=0"; }
 int main(void)
 {
     char buf[CONFIG_BUFF];
